@@ -154,7 +154,7 @@ def impl_seg_dict(seg):
     return d
 
 
-def compare_segment(iseg, rseg, rel=1e-9, arc_grid=16):
+def compare_segment(iseg, rseg, rel=1e-9, arc_grid=16, arc_geometry=True):
     """-> list of problem strings (empty = the implementation segment is the reference segment)"""
     probs = []
     want = KINDMAP[rseg.kind]
@@ -175,7 +175,7 @@ def compare_segment(iseg, rseg, rel=1e-9, arc_grid=16):
             probs.append("control1 %r, expected %r" % (pt(iseg.control1), rseg.c1))
         if not close_pt(pt(iseg.control2), rseg.c2, tol):
             probs.append("control2 %r, expected %r" % (pt(iseg.control2), rseg.c2))
-    elif rseg.kind == "Arc" and not probs:
+    elif rseg.kind == "Arc" and not probs and arc_geometry:
         rx, ry, rot, fa, fs = rseg.arc
         ref = arcspec.ArcRef(rseg.start, rx, ry, rot, fa, fs, rseg.end)
         lo, hi = min(abs(rx), abs(ry)), max(abs(rx), abs(ry))
@@ -195,7 +195,7 @@ def arc_degenerate(rseg):
     return rseg.start == rseg.end or rseg.arc[0] == 0 or rseg.arc[1] == 0
 
 
-def compare_path(ipath_segments, rsegs, out, what, tags=None, rel=1e-9):
+def compare_path(ipath_segments, rsegs, out, what, tags=None, rel=1e-9, arc_geometry=True):
     """compares lists; records discrepancies into Outcome `out`; returns number of transitions compared"""
     tags = tags or {}
     n = 0
@@ -210,7 +210,7 @@ def compare_path(ipath_segments, rsegs, out, what, tags=None, rel=1e-9):
         if arc_degenerate(rseg):
             prev_end = pt(iseg.end)
             continue
-        probs = compare_segment(iseg, rseg, rel=rel)
+        probs = compare_segment(iseg, rseg, rel=rel, arc_geometry=arc_geometry)
         tol = rel * seg_scale(rseg)
         # connectivity recomputed from public fields (independent of the reference's coordinates)
         if type(iseg).__name__ == "Move":
